@@ -186,4 +186,77 @@ def diagonalize2 (g1 g2 : PStr) (i0 : Nat) : List PStr × PStr × PStr :=
     (gs ++ [g], g1, xorS g2 g)
   else (gs, g1, g2)
 
+/-! ## `stabilizer_project` (vectorised): all anticommuting rows are found at once, the pivot is the first one below `N + r`,
+the anticommuting rows after the pivot are updated in one statement (`acqs[0:p+1] = False; gs_stb[acqs] = (gs_stb[acqs] + gs_stb[p]) % 2`) -/
+def project1 (st : State) (obs : PStr) : State :=
+  let N := st.N
+  let acqs := st.rows.map fun R => anti R.g obs
+  match (List.range (2 * N)).find? (fun j => acqs.getD j false && decide (j < N + st.r)) with
+  | none => st
+  | some p =>
+    let gp := (rowAt st.rows p).g
+    let T1 := st.rows.mapIdx fun j R => if acqs.getD j false && decide (p < j) then (⟨xorS R.g gp, R.p⟩ : Pauli) else R
+    let (T', r', _) := install T1 obs N st.r p gp
+    ⟨T', r'⟩
+def project (st : State) (obs : List PStr) : State := obs.foldl project1 st
+
+/-! ## batched sampling: `random_pair(N, L)` draws `L` pairs at once, `random_pauli(N) = build_pauli_map(N, *random_pair(1, N))` -/
+/-- `torch.randint(0, 2, (L, 2*N))`: `L` strings on `N` qubits, row-major -/
+def takeRows (L N : Nat) (tape : List Bool) : Option (List PStr × List Bool) :=
+  match takeBits (L * (2 * N)) tape with
+  | none => none
+  | some (b, t) => some ((List.range L).map fun k => unflat ((b.drop (k * (2 * N))).take (2 * N)), t)
+
+/-- `g1[zero] = fresh`: the all-zero rows are replaced, in order, by the fresh rows -/
+def fillZero : List PStr → List PStr → List PStr
+  | [], _ => []
+  | g :: gs, fresh =>
+    if anyBit g then g :: fillZero gs fresh
+    else match fresh with
+      | [] => g :: fillZero gs []
+      | f :: fs => f :: fillZero gs fs
+
+/-- the (repaired) resampling loop: `while zero.any(): g1[zero] = randint(0, 2, (zero.sum(), 2N))`; fuel = tape length -/
+def resampleRows (N : Nat) : Nat → List PStr → List Bool → Option (List PStr × List Bool)
+  | 0, g1, tape => if g1.all anyBit then some (g1, tape) else none
+  | fuel + 1, g1, tape =>
+    if g1.all anyBit then some (g1, tape)
+    else match takeRows (g1.filter fun g => !anyBit g).length N tape with
+      | none => none
+      | some (fresh, tape') => resampleRows N fuel (fillZero g1 fresh) tape'
+
+/-- `impose_leading_noncommutivity` for one pair: the same fix-up as `pyclifford.utils.random_pair` -/
+def impose (g1 g2 : PStr) : PStr :=
+  if PC.acq g1 g2 = 0 then
+    let i := PC.front g1
+    let a := getQ g1 i
+    let b := getQ g2 i
+    setQ g2 i (b.1 != a.2, (b.2 != a.1) != a.2)
+  else g2
+
+/-- `random_pair(N, L)` -/
+def randomPairs (N L : Nat) (tape : List Bool) : Option (List (PStr × PStr) × List Bool) :=
+  match takeRows L N tape with
+  | none => none
+  | some (g1, t1) =>
+    match takeRows L N t1 with
+    | none => none
+    | some (g2, t2) =>
+      match resampleRows N t2.length g1 t2 with
+      | none => none
+      | some (g1', t3) => some ((g1'.zip g2).map fun ab => (ab.1, impose ab.1 ab.2), t3)
+
+/-- `random_pauli(N)`: rows `2k`, `2k+1` are the `k`-th pair placed on qubit `k` (`build_pauli_map`).
+    For `N = 1` `random_pair` squeezes the batch dimension away and `torch.stack((g1, g2), dim=1)` then pairs the entries the
+    other way round: the 2×2 table comes out transposed (rows `(x1, x2)`, `(z1, z2)`), which is again a valid table. -/
+def randomPauli (N : Nat) (tape : List Bool) : Option (List PStr × List Bool) :=
+  match randomPairs 1 N tape with
+  | none => none
+  | some (pairs, t) =>
+    if N = 1 then
+      match pairs with
+      | [ab] => some ([[((getQ ab.1 0).1, (getQ ab.2 0).1)], [((getQ ab.1 0).2, (getQ ab.2 0).2)]], t)
+      | _ => none
+    else some ((pairs.mapIdx fun k ab => [placeQ N k (getQ ab.1 0), placeQ N k (getQ ab.2 0)]).flatten, t)
+
 end PC.T
